@@ -77,7 +77,11 @@ Needs(n, m) ==
   /\ rs[n].height = 1 /\ ~Dead(rs[n])
   /\ CASE m.t = "proposal" -> m.src # n /\ rs[n].prop = NoProp /\ rs[n].round = m.r
        [] m.t = "block"    -> rs[n].partsHdr = m.v /\ rs[n].propBlock = Nil
-       [] m.t \in {"claim_prevote", "claim_precommit"} -> m.src # n
+       \* a claim only matters to a node that holds a conflicting vote it could then replace/record
+       [] m.t \in {"claim_prevote", "claim_precommit"} ->
+            m.src # n /\ LET vs == IF m.t = "claim_prevote" THEN rs[n].pv[m.r] ELSE rs[n].pc[m.r] IN
+                         /\ ~Claimed(vs, m.v) /\ ~(\E c \in vs.pm : c[1] = m.src)
+                         /\ \E v \in Vals : vs.votes[v] \notin {None, m.v} /\ ~(<<m.v, v>> \in vs.by)
        [] OTHER            -> m.src # n /\ LET vs == IF m.t = "prevote" THEN rs[n].pv[m.r] ELSE rs[n].pc[m.r] IN
                                            ~(<<m.v, m.src>> \in vs.by) /\ (vs.votes[m.src] = None \/ Claimed(vs, m.v))
 
